@@ -157,6 +157,14 @@ func (f *Frame) call(site ssa.Instruction, common *ssa.CallCommon, pos token.Pos
 		out = f.havocVal(rt, "ext")
 		f.bumpAlloc()
 	}
+	if out.T != "" && out.Tuple == nil && out.Loc == nil {
+		f.assumeAllocated(out.T, rt, 0)
+	}
+	for i, tv := range out.Tuple {
+		if tup, ok := rt.(*types.Tuple); ok && i < tup.Len() && tv.T != "" {
+			f.assumeAllocated(tv.T, tup.At(i).Type(), 0)
+		}
+	}
 	f.ghostHooks(siteKey, args, out, true)
 	return out
 }
@@ -214,6 +222,7 @@ func (f *Frame) havocAll() {
 func (f *Frame) invoke(common *ssa.CallCommon, args []Val, rt types.Type, siteKey string, pos token.Pos) Val {
 	e := f.e
 	key := "iface:" + types.TypeString(common.Value.Type(), nil) + "." + common.Method.Name()
+	f.safety("nilcall", describe(common.Value, 0)+"."+common.Method.Name()+"()", fmt.Sprintf("(not (= (i_tag %s) 0))", args[0].T), pos)
 	if con := e.P.specs.Contracts[key]; con != nil {
 		return f.applyContractNamed(con, contractParamNames(con, common.Signature(), true), args, rt, siteKey, pos, key)
 	}
@@ -500,7 +509,11 @@ func (f *Frame) builtin(b *ssa.Builtin, common *ssa.CallCommon, args []Val, site
 		f.panicExit(pos, "panic")
 		return Val{T: "0"}
 	case "recover":
-		// on the normal path recover() returns nil
+		// on the normal path recover() returns nil; a function verified as a deferred
+		// handler sees an arbitrary recovered value
+		if f.top && e.con != nil && e.con.Handler {
+			return f.havocVal(types.NewInterfaceType(nil, nil), "recovered")
+		}
 		return Val{T: "nil_iface"}
 	case "print", "println":
 		return Val{T: "0"}
@@ -581,6 +594,10 @@ func (f *Frame) ghostAt(kind string, args []Val, res Val, after bool) {
 }
 
 func (f *Frame) ghostHooks(siteKey string, args []Val, res Val, after bool) {
+	f.ghostHooksNamed(siteKey, args, res, after, nil)
+}
+
+func (f *Frame) ghostHooksNamed(siteKey string, args []Val, res Val, after bool, argNames []string) {
 	e := f.e
 	if !f.top || e.con == nil {
 		return
@@ -597,6 +614,9 @@ func (f *Frame) ghostHooks(siteKey string, args []Val, res Val, after bool) {
 		env := f.specEnv(f.heap, nil, nil)
 		for i, a := range args {
 			env.names[fmt.Sprintf("arg%d", i)] = specVal{v: a, t: f.argType(siteKey, i)}
+			if i < len(argNames) {
+				env.names[argNames[i]] = specVal{v: a, t: f.argType(siteKey, i)}
+			}
 		}
 		if after {
 			rts := f.curResTypes
@@ -645,6 +665,11 @@ func (f *Frame) ghostHooks(siteKey string, args []Val, res Val, after bool) {
 			e.store(f.heap, sv.loc, v.T)
 		}
 	}
+}
+
+// storeHooks runs `at call store#k ...` ghost statements with val / idx bound.
+func (f *Frame) storeHooks(siteKey string, args []Val) {
+	f.ghostHooksNamed(siteKey, args, Val{}, false, []string{"val", "idx"})
 }
 
 func (f *Frame) argType(siteKey string, i int) types.Type {
